@@ -72,8 +72,37 @@ func runC15(c *Ctx) {
 		}
 		// lowered caps are the thresholds
 		c.storeIs("C15-R2", fl, "gascap", `^uint64#0$`, "Filter lowers gascap to the limit")
+		// limits hold for non-local senders: the `local` flag is true only for transactions submitted through the
+		// local API (AddLocal/AddLocals); every internal re-submission (reorg re-injection) is remote
+		adders := map[string]int{"(*core.TxPool).addTx": 2, "(*core.TxPool).addTxs": 2, "(*core.TxPool).addTxsLocked": 2, "(*core.TxPool).add": 2}
+		forward := map[string]bool{"(*core.TxPool).addTx": true, "(*core.TxPool).addTxs": true, "(*core.TxPool).addTxsLocked": true}
+		localAPI := map[string]bool{"(*core.TxPool).AddLocal": true, "(*core.TxPool).AddLocals": true}
+		nl := 0
+		for _, caller := range c.SrcFns {
+			if caller.Synthetic != "" {
+				continue
+			}
+			for _, b := range caller.Blocks {
+				for _, ins := range b.Instrs {
+					ci, isCall := ins.(ssa.CallInstruction)
+					if !isCall || ci.Common().StaticCallee() == nil {
+						continue
+					}
+					idx, isAdder := adders[shortFn(ci.Common().StaticCallee())]
+					if !isAdder {
+						continue
+					}
+					nl++
+					a := ci.Common().Args[idx]
+					t := c.termOf(caller, a)
+					ok := t == "false" || (t == "bool#0" && forward[shortFn(caller)]) || (localAPI[shortFn(caller)] && t == "!TxPool#0.config.NoLocals")
+					c.Ob("C15-R2", shortFn(caller)+": a transaction is treated as local only when it came through AddLocal/AddLocals", c.Position(ci.Pos()), ok, "local = "+t)
+				}
+			}
+		}
+		c.Ob("C15-R2", "call sites of the internal add functions found", "", nl >= 7, fmt.Sprintf("%d", nl))
 	})
-	c.Min("C15-R2", 18)
+	c.Min("C15-R2", 26)
 
 	c.Rule("C15-R3", "every slice of removed transactions is consumed (unindexed or re-queued)", func() {
 		tp := c.Pkg("core")
@@ -133,8 +162,26 @@ func runC15(c *Ctx) {
 			}
 		}
 		c.Extra["removed_slices"] = n
+		// removing a pending transaction rewinds the pending-state nonce to it, on every path (also when the
+		// account's pending list became empty), so the next promotion starts at the gap
+		rm := c.Fn("core:(*TxPool).removeTx")
+		frm := c.Facts(rm)
+		var removed []*pstate
+		for _, rs := range frm.AllReturns() {
+			if _, was := hasLit(rs.State, mustRe(`^TxPool#0\.pending\[.*\]\.Remove\(.*\)#0$`)); was {
+				removed = append(removed, rs.State)
+			}
+		}
+		c.mustStates("C15-R3", rm, "return after removing a pending transaction", removed, []LitReq{
+			{Name: "removeTx rewinds the pending nonce to the removed transaction's nonce when it was ahead of it",
+				Unless: `^TxPool#0\.pendingState\.GetNonce\(.*\) <= .*\.Nonce\(\)$`,
+				Re:     `^called:TxPool#0\.pendingState\.SetNonce\(types\.Sender\(.*\)#0, .*\.Nonce\(\)\)$`},
+		})
+		if len(removed) < 2 {
+			c.Ob("C15-R3", "removeTx has the pending-removal paths (list emptied / not emptied)", c.FnPos(rm), false, fmt.Sprintf("%d", len(removed)))
+		}
 	})
-	c.Min("C15-R3", 10)
+	c.Min("C15-R3", 11)
 
 	c.Rule("C15-R4", "reset pipeline: state first, then demote, then promote; reorg re-injection is TxDifference(discarded, included) with a symmetric depth limit", func() {
 		rs := c.Fn("core:(*TxPool).reset")
